@@ -40,10 +40,12 @@ NA_REASONS = {
 }
 
 NOT_BUILT = "simulation target per DESIGN.md §1 but its engine is not built/sound yet in this tree, so it is not claimed"
-for _p in "C14 C22 C23 C26 C27 C35 C36 C37 C39 C44 C45".split():
+for _p in "C14 C22 C26 C27 C35 C36 C37 C39 C44 C45".split():
     NA_REASONS[_p] = NOT_BUILT
 
 ENGINE_INFO = {
+    "E3-gen-history": {"path": "simkit/e3_gen.py", "serves_properties": ["C23"],
+                       "kind_free_text": "operation-history and fault-plan simulation of compiled generator/coroutine/async-generator objects vs CPython"},
     "E2-build-sim": {"path": "simkit/e2_build.py + simkit/e2_determinism.py", "serves_properties": ["C46", "C42"],
                      "kind_free_text": "real cythonize over generated trees with simulator-owned mtimes and simulated process restarts vs dependency-graph model"},
     "E1-cache-sim": {"path": "simkit/e1_cache.py", "serves_properties": ["C48"],
@@ -55,6 +57,12 @@ ENGINE_INFO = {
 }
 
 CHECKS = {
+    "C23": {
+        "engine": "E3-gen-history", "level": "exploration", "design_ref": "DESIGN.md §4 E3",
+        "technique": "deterministic simulation of the resume protocol: seeded operation histories (next/send/throw/close/abandon/re-entrant resume, asend/athrow/aclose stepped by a driver) and fault plans (raises injected at probes inside the body) against compiled generator objects, trace refinement against CPython executing the same source and history; ddmin replay",
+        "text": "Generated generator, coroutine and async-generator bodies are compiled once; tens of thousands of seeded histories per run then decide what happens to each object (which exception is thrown when, when it is closed or abandoned, whether the body re-enters itself, which probe raises). The trace (yielded values, StopIteration/StopAsyncIteration values, exception types and user-exception args, probe log incl. finally blocks and delegate calls, gi_running, cleanup on abandonment, asyncgen finalizer hook) must equal CPython's for the same source and history. Sampling, not proof.",
+        "note": "CPython 3.12.1 is the reference. __cause__/__context__ and builtin exception messages are not compared. Resumption from a second thread and asyncio cancellation under a virtual-time loop (DESIGN E3) are not built. Known finding F5 (throw(StopIteration)) is matched narrowly and not alarmed.",
+    },
     "C42": {
         "engine": "E2-build-sim", "level": "exploration", "design_ref": "DESIGN.md §4 E2 (C42)",
         "technique": "deterministic simulation of a multi-module build: seeded PYTHONHASHSEED (exec'd servers under setarch -R), seeded module order, process pool replaced by a simulated pool (real forks, seeded job->worker assignment), seeded in-process compile history; every output compared byte-for-byte with the canonical stand-alone compilation",
